@@ -55,8 +55,8 @@ reg("C07", "fault_enumeration",
     "file operation), F3 (random multi-fault sequences over several attempts), F3m (1..6 certificates sharing account and endpoint, any subset "
     "failing permanently). Oracles: no panic; every attempt ends; one post-operation batch per attempt with a faithful report; >= 1 s between "
     "a failed attempt and the next one; healthy certificates are issued. Non-trivial = a run in which at least one attempt failed.",
-    quick=[("F2", 100000), ("F2f", 100000), ("F2h", 100000), ("F2s", 100000), ("F3", 800), ("F3m", 500), ("F4u", 12)],
-    thorough=[("F2", 100000), ("F2b", 100000), ("F2f", 100000), ("F2h", 100000), ("F2s", 100000), ("F3", 60000), ("F3m", 20000), ("F4u", 12)],
+    quick=[("F2", 100000), ("F2f", 100000), ("F2h", 100000), ("F2s", 100000), ("F3", 800), ("F3m", 500), ("F4u", 100000)],
+    thorough=[("F2", 100000), ("F2b", 100000), ("F2f", 100000), ("F2h", 100000), ("F2s", 100000), ("F3", 60000), ("F3m", 20000), ("F4u", 100000)],
     exhaustive_families=["F2", "F2b", "F2f", "F2h", "F2s"])
 
 reg("C02", "exploration",
@@ -66,8 +66,8 @@ reg("C02", "exploration",
     "completed write through the storage seam the real file is read back and must equal exactly the bytes written; after every successful attempt "
     "the certificate file equals the CA's served body byte for byte and the key file is the CSR's key. Non-trivial = a run in which an existing "
     "file was rewritten.",
-    quick=[("F4", 1000), ("F4c", 48), ("F4t", 240), ("F6", 250), ("F1", 500)],
-    thorough=[("F4", 50000), ("F4c", 48), ("F4t", 240), ("F6", 10000), ("F6x", 20000), ("F1", 50000)])
+    quick=[("F4", 1000), ("F4c", 100000), ("F4t", 100000), ("F6", 250), ("F1", 500)],
+    thorough=[("F4", 50000), ("F4c", 100000), ("F4t", 100000), ("F6", 10000), ("F6x", 20000), ("F1", 50000)])
 
 reg("C06", "exploration",
     "F4: renewal histories over up to 4000 virtual days: CA lifetimes from already-expired to 10 years, renew_delay/random_early_renew from 0s to "
@@ -75,8 +75,8 @@ reg("C06", "exploration",
     "file removed or the wall clock stepped, jitter source in modes seeded/min/max. Oracle on virtual arrival times: the next attempt begins within "
     "[max(t_eval, notAfter-renew_delay-random_early_renew), max(t_eval, notAfter-renew_delay)] +- (2 s + I/O latency bound). Non-trivial = at least one "
     "evaluation instant (boot or end of a successful attempt) was judged.",
-    quick=[("F4", 1000), ("F4g", 400)],
-    thorough=[("F4", 50000), ("F4g", 400)],
+    quick=[("F4", 1000), ("F4g", 100000)],
+    thorough=[("F4", 50000), ("F4g", 100000)],
     assumptions=["wall-clock steps are injected only while the daemon is stopped (a step during a sleep makes 'on time' ambiguous)",
                  "evaluations after failed attempts are C07's subject, not C06's"])
 
@@ -95,14 +95,14 @@ reg("C04", "exploration",
     "key roll-overs, re-registration). Every POST the transport seam delivers is verified by the model CA's independent JWS verifier: flattened shape, protected members, alg<->key, "
     "url == request URL, nonce in issued minus consumed, jwk xor kid discipline, signature under the key on record (fixed-width R||S). Non-trivial = at least one POST verified; "
     "ECDSA signatures with a leading-zero component are counted (reach by volume).",
-    quick=[("F1", 1200), ("F6k", 42), ("F5", 250), ("F6", 250)], thorough=[("F1", 100000), ("F6k", 42), ("F5", 30000), ("F6", 10000), ("F6x", 20000)],
+    quick=[("F1", 1200), ("F6k", 100000), ("F5", 250), ("F6", 250)], thorough=[("F1", 100000), ("F6k", 100000), ("F5", 30000), ("F6", 10000), ("F6x", 20000)],
     assumptions=["judged on fault-free families only: after an injected lost reply or failed nonce fetch the daemon legitimately re-uses its last nonce"])
 
 reg("C13", "exploration",
     "F1 with generated mode/owner options (6 owner spellings by name and number, 8 modes, umask in {022,077,027,000}) over create and rewrite; every file the simulated daemon "
     "writes is stat(2)ed on the real scratch tree after the write: mode at creation == configured & ~umask and unchanged by rewrites, uid/gid == configured (own passwd/group reader). "
     "Weakest fit for the technique (no schedule or fault in the statement); claimed because the storage seam performs the real open(2)/chown(2).",
-    quick=[("F1", 1200), ("F1o", 256)], thorough=[("F1", 100000), ("F1o", 256)])
+    quick=[("F1", 1200), ("F1o", 100000)], thorough=[("F1", 100000), ("F1o", 100000)])
 
 reg("C05", "exploration",
     "F1 (identifier swarm: several names with different challenge types, CA lists authorizations/challenges in any order, offers subsets, pre-valid authorizations, "
@@ -110,7 +110,7 @@ reg("C05", "exploration",
     "of key authorization / dns-01 digest / acmeIdentifier text / reverse-DNS name from the registered JWK and issued token vs what the hook process received; hook type == "
     "the type configured for the identifier the authorization is for; challenge POST only after the hooks exited successfully; no hook for an already valid authorization. "
     "Non-trivial = at least one authorization of a mapped order was judged.",
-    quick=[("F1", 1200), ("F1w", 360), ("F1p", 72), ("F1h", 400), ("F6k", 42), ("F6", 200)], thorough=[("F1", 80000), ("F1w", 20000), ("F1p", 72), ("F1h", 30000), ("F6k", 42), ("F6", 10000), ("F6x", 10000)],
+    quick=[("F1", 1200), ("F1w", 360), ("F1p", 100000), ("F1h", 400), ("F6k", 100000), ("F6", 200)], thorough=[("F1", 80000), ("F1w", 20000), ("F1p", 100000), ("F1h", 30000), ("F6k", 100000), ("F6", 10000), ("F6x", 10000)],
     assumptions=["when a name and its wildcard use the same challenge type either configuration entry may be looked up (only type and proof values are judged)",
                  "no hook and no challenge POST when the CA does not offer the configured type is correct behaviour"])
 
